@@ -4,9 +4,9 @@ use crate::support::*;
 use educe::Educe;
 use core::cmp::Ordering;
 #[derive(Educe)]
-#[educe(PartialEq)]
-pub enum T { B { #[educe(PartialEq(method(m_eq)))] x: A<0>, #[educe(PartialEq(ignore = true))] f: A<0>, #[educe(PartialEq = true)] builder: A<2>, #[educe(PartialEq(method = m_eq))] data: A<3> } }
-pub fn values() -> Vec<T> { vec![T::B { x: A(7), f: A(0), builder: A(7), data: A(0) }, T::B { x: A(0), f: A(7), builder: A(7), data: A(1) }, T::B { x: A(0), f: A(1), builder: A(7), data: A(1) }, T::B { x: A(1), f: A(1), builder: A(0), data: A(0) }, T::B { x: A(0), f: A(7), builder: A(7), data: A(7) }, T::B { x: A(1), f: A(1), builder: A(0), data: A(7) }, T::B { x: A(0), f: A(1), builder: A(0), data: A(1) }, T::B { x: A(7), f: A(0), builder: A(0), data: A(0) }, T::B { x: A(1), f: A(7), builder: A(1), data: A(0) }, T::B { x: A(0), f: A(7), builder: A(0), data: A(7) }, T::B { x: A(7), f: A(7), builder: A(0), data: A(1) }, T::B { x: A(7), f: A(7), builder: A(1), data: A(0) }, T::B { x: A(1), f: A(7), builder: A(7), data: A(7) }, T::B { x: A(1), f: A(1), builder: A(7), data: A(1) }, T::B { x: A(0), f: A(0), builder: A(1), data: A(0) }, T::B { x: A(1), f: A(7), builder: A(1), data: A(7) }, T::B { x: A(0), f: A(7), builder: A(7), data: A(0) }, T::B { x: A(1), f: A(0), builder: A(0), data: A(1) }, T::B { x: A(0), f: A(1), builder: A(7), data: A(0) }, T::B { x: A(7), f: A(1), builder: A(1), data: A(1) }, T::B { x: A(0), f: A(7), builder: A(1), data: A(7) }, T::B { x: A(7), f: A(7), builder: A(1), data: A(1) }, T::B { x: A(0), f: A(1), builder: A(1), data: A(7) }, T::B { x: A(0), f: A(0), builder: A(1), data: A(7) }, T::B { x: A(7), f: A(1), builder: A(1), data: A(0) }, T::B { x: A(7), f: A(0), builder: A(0), data: A(1) }, T::B { x: A(0), f: A(7), builder: A(0), data: A(1) }, T::B { x: A(0), f: A(1), builder: A(1), data: A(0) }, T::B { x: A(7), f: A(1), builder: A(7), data: A(1) }, T::B { x: A(0), f: A(1), builder: A(7), data: A(7) }, T::B { x: A(7), f: A(1), builder: A(0), data: A(7) }, T::B { x: A(0), f: A(0), builder: A(0), data: A(0) }, T::B { x: A(1), f: A(0), builder: A(1), data: A(0) }, T::B { x: A(1), f: A(0), builder: A(1), data: A(7) }, T::B { x: A(1), f: A(0), builder: A(0), data: A(7) }, T::B { x: A(0), f: A(0), builder: A(1), data: A(1) }, T::B { x: A(0), f: A(0), builder: A(7), data: A(7) }, T::B { x: A(0), f: A(7), builder: A(1), data: A(0) }, T::B { x: A(0), f: A(0), builder: A(0), data: A(7) }, T::B { x: A(1), f: A(7), builder: A(7), data: A(0) }, T::B { x: A(7), f: A(1), builder: A(7), data: A(7) }, T::B { x: A(0), f: A(7), builder: A(1), data: A(1) }, T::B { x: A(7), f: A(0), builder: A(1), data: A(1) }, T::B { x: A(1), f: A(7), builder: A(0), data: A(1) }, T::B { x: A(0), f: A(1), builder: A(0), data: A(0) }, T::B { x: A(7), f: A(0), builder: A(7), data: A(1) }, T::B { x: A(1), f: A(1), builder: A(7), data: A(7) }, T::B { x: A(1), f: A(7), builder: A(0), data: A(7) }] }
-pub fn show(x: &T) -> String { #[allow(unused_variables)] match x { T::B { x: p0, f: p1, builder: p2, data: p3 } => format!("B({},{},{},{})", sv(p0), sv(p1), sv(p2), sv(p3)) } }
-pub fn o_eq(a: &T, b: &T) -> bool { match (a, b) { (T::B { x: a0, f: a1, builder: a2, data: a3 }, T::B { x: b0, f: b1, builder: b2, data: b3 }) => m_eq(a0, b0) && (a2 == b2) && m_eq(a3, b3) } }
+#[educe(PartialEq, Eq)]
+pub struct T;
+pub fn values() -> Vec<T> { vec![T] }
+pub fn show(x: &T) -> String { #[allow(unused_variables)] match x { T => format!("T()") } }
+pub fn o_eq(a: &T, b: &T) -> bool { match (a, b) { (T, T) => true } }
 pub fn run(out: &mut Out) { let vs = values(); for a in &vs { for b in &vs { let e = o_eq(a, b); out.check((a == b) == e, "eq_13", "eq", || format!("{} == {} expected {}", show(a), show(b), e)); out.check((a != b) == !e, "eq_13", "ne", || format!("{} != {} expected {}", show(a), show(b), !e)); } } }
